@@ -455,10 +455,14 @@ def peoe_conservation_on_models(prog):
         "chain": (["N.4", "C.3", "O.co2"], [(0, 1), (1, 2)]),
         "branched": (["C.2", "O.co2", "O.co2", "C.3", "H"], [(0, 1), (0, 2), (0, 3), (3, 4)]),
         "ring": (["C.ar", "N.ar", "C.ar", "S.3"], [(0, 1), (1, 2), (2, 3), (3, 0)]),
+        # atoms nothing is bonded to (the counter-ion of a salt listed in the same file, a lone ion): their charge has nowhere to go and must stay
+        "pair and a free ion": (["C.3", "N.4", "Cl"], [(0, 1)]),
+        "free ions only": (["Cl", "F"], []),
     }
     charges = {"pair": [(0.0, 0.0), (1.0, 0.0), (0.0, -1.0), (3.0, 0.0)], "pair reversed": [(0.0, 0.0), (-1.0, 0.0), (0.0, -3.0)],
                "chain": [(1.0, 0.0, -1.0), (1.0, 0.0, 0.0), (0.0, 0.0, -0.5)], "branched": [(0.0, -0.5, -0.5, 0.0, 0.0), (0.0, 0.0, 0.0, 0.0, 0.0)],
-               "ring": [(0.0, 1.0, 0.0, 0.0), (0.0, 0.0, 0.0, -2.0)]}
+               "ring": [(0.0, 1.0, 0.0, 0.0), (0.0, 0.0, 0.0, -2.0)],
+               "pair and a free ion": [(0.0, 1.0, -1.0), (0.0, 0.0, -1.0), (0.0, 1.0, 0.0)], "free ions only": [(-1.0, -1.0), (1.0, 0.0)]}
     out = []
     for name, (types, bonds) in skeletons.items():
         for formal in charges[name]:
